@@ -168,7 +168,11 @@ def generate():
 
         f = find_func(cls, "_close_file")
         srcs = [ast.unparse(s) for s in f.body]
-        tagmap = {"self._file.flush()": "flush", "self._file.close()": "close", "self._file = None": "resetFile",
+        # `file = self._file` binds the object first (since e6154e8 it is flushed, forgotten, then closed);
+        # the older spelling through `self._file` is still recognised so that a revert changes the generated
+        # ORDER (and re-opens the proofs) instead of merely failing closed
+        tagmap = {"file = self._file": "bindFile", "file.flush()": "flush", "file.close()": "close",
+                  "self._file.flush()": "flush", "self._file.close()": "close", "self._file = None": "resetFile",
                   "self._file_path = None": "resetPath", "self._file_dev = -1": "resetDev", "self._file_ino = -1": "resetIno"}
         if any(s not in tagmap for s in srcs):
             raise Unsupported("_close_file changed: %r" % srcs)
